@@ -23,10 +23,10 @@ EXPLANATION = (
     "parameter the check treats as a literal is re.escape-d before being embedded in a regex, a pattern parameter is "
     "embedded grouped; (R7) in the series / dataframe strategies nothing transforms the strategy (null masks, index "
     "attachment, mapping) after a check-based fallback filter, so the object the filter accepted is the object drawn; (R8) "
-    "every column listed in DataFrameSchema.unique is generated unique (membership test, not a single designated column). NOT decided: that draws validate (hypothesis search + numpy/pandas dtype conversion)."
+    "every column listed in DataFrameSchema.unique is generated unique (membership test, not a single designated column); (R9) a row strategy passed to data_frames(rows=...) also carries each column's own checks. NOT decided: that draws validate (hypothesis search + numpy/pandas dtype conversion)."
 )
 LEVEL_RULE = "one obligation per (check strategy, path) / parameter / fallback site"
-FLOORS = {"R1": 14, "R2": 30, "R3": 14, "R4": 1, "R5": 3, "R6": 2, "R7": 3, "R8": 1}
+FLOORS = {"R1": 14, "R2": 30, "R3": 14, "R4": 1, "R5": 3, "R6": 2, "R7": 3, "R8": 1, "R9": 1}
 
 PD = "pandera/backends/pandas/builtin_checks.py"
 ST = "pandera/strategies/pandas_strategies.py"
@@ -516,6 +516,37 @@ def r8_joint_unique(ctx, stm):
         ctx.ob("R8", f, "every column listed in the schema's `unique` is generated unique", False, "no column is made unique for joint uniqueness")
 
 
+def r9_row_strategy_keeps_column_checks(ctx, stm):
+    """hypothesis' data_frames(rows=...) takes every value from the row strategy and ignores the per-column element
+    strategies, so a row strategy built for dataframe-level checks has to carry each column's own checks as well."""
+    from ..util import Expander
+    f = stm.functions.get("dataframe_strategy")
+    n = 0
+    for g in [f] + list(f.nested.values()):
+        ex = Expander(g.node)
+        for c in calls_in(g.node):
+            if callee_last(c) != "data_frames" or kw(c, "rows") is None:
+                continue
+            rows = kw(c, "rows")
+            if isinstance(rows, ast.Constant) and rows.value is None:
+                continue
+            n += 1
+            uses_col_checks = False
+            for e in ex.closure(rows):
+                for x in ast.walk(e):
+                    if isinstance(x, ast.Call) and callee_last(x) == "make_row_strategy":
+                        for a in list(x.args[1:]) + [k.value for k in x.keywords if k.arg != "col"]:
+                            for d in ex.closure(a):
+                                if any(isinstance(y, ast.Attribute) and y.attr == "checks" and not txt(y.value).startswith("self") for y in ast.walk(d)):
+                                    uses_col_checks = True
+            ctx.ob("R9", g, "row strategy for dataframe-level checks also enforces each column's own checks", uses_col_checks,
+                   "make_row_strategy(col, [*col.checks, ...])" if uses_col_checks else
+                   "`rows=` replaces the column element strategies, and the row strategy is built from the dataframe-level checks only: with "
+                   "any dataframe-level built-in / element-wise check the column checks are ignored by the generator", g.loc(c))
+    if n == 0:
+        ctx.ob("R9", f, "no row strategy is passed to data_frames", True, "column strategies are always used")
+
+
 def run(ctx):
     ix = ctx.ix
     stm = ix.module(ST)
@@ -643,5 +674,6 @@ def run(ctx):
         ctx.ob("R5", f, f"{fname}: checks without a strategy are enforced by filtering", ok, detail)
     r7_filter_last(ctx, stm)
     r8_joint_unique(ctx, stm)
+    r9_row_strategy_keeps_column_checks(ctx, stm)
     ctx.assume("hypothesis strategies honour min_value/max_value/exclude_min/exclude_max, st.text sizes, from_regex and filter")
     ctx.assume("hypothesis.internal.filtering.min_len/max_len(size, x) mean len(x) >= size / len(x) <= size")
